@@ -25,10 +25,34 @@ Theorem C16_walk_reaches_every_node : forall t u : tree, wf t -> desc t u -> rea
 Proof. exact walk_reaches_every_node. Qed.
 Print Assumptions C16_walk_reaches_every_node.
 
+(** The visit functions never cut the walk: for every node type, in both visit functions (WalkStatement,
+    WalkSelect), whatever convertComparison did to the node (replaced its right operand by a list bind variable, or
+    left it alone), the value the visit function returns to Walk is "continue into the children" — or the subtree
+    is handed to WalkSelect, which continues.  Computed over the tables of Gen/SqlSchema.v that are read from the
+    return statements of the visit functions on every run (VISIT_STATEMENT, VISIT_SELECT, CMP_REPORTS_...); a
+    visit function that returns false above children it has not converted makes this theorem (and the next but
+    one, which rests on it) stop building. *)
+Theorem C16_visit_functions_never_cut_the_walk :
+  forall (sel : bool) (ty : N) (replaced : bool), model_goes_below sel ty replaced = true.
+Proof. exact visit_never_cuts_walk. Qed.
+Print Assumptions C16_visit_functions_never_cut_the_walk.
+
+(** ... and that reading of the tables is what the compiled package does: on every probe tree (a sentinel literal
+    below a comparison with a replaced / an untouched right operand, below a Select, a ParenExpr, an SQLVal, inside
+    a DELETE and inside a SELECT) the real walk went below the node exactly when the model says so. *)
+Theorem C16_visit_probe_agrees :
+  VISIT_PROBE <> [] /\
+  forall (sel : bool) (ty : N) (h obs : bool), In (sel, ty, h, obs) VISIT_PROBE -> model_goes_below sel ty h = obs.
+Proof. exact visit_probe_agrees. Qed.
+Print Assumptions C16_visit_probe_agrees.
+
 (** ALL trees, all walk modes, all normalizer states (counter, reserved names, dedup table), every prefix:
-    after the walk no node that Walk reaches is an SQLVal of a literal ValType.  Rests on the finite check
-    [all_literals_converted] over the regenerated ValType enumeration and sqlToBindvar table: if a literal
-    ValType is not converted on the tree under /repo, this theorem no longer builds. *)
+    after the walk no node that Walk reaches is an SQLVal of a literal ValType.  [norm] goes below a node only
+    when the regenerated tables say that the visit function returns kontinue = true for it, so the proof rests on
+    [visit_never_cuts_walk] (above), on [sqlval_converted] (both visit functions convert an SQLVal) and on the
+    finite check [all_literals_converted] over the regenerated ValType enumeration and sqlToBindvar table: if a
+    literal ValType is not converted, or a visit function stops above unvisited children on the tree under /repo,
+    this theorem no longer builds. *)
 Theorem C16_normalize_leaves_no_literal :
   forall (prefix : bytes) (sel : bool) (st : nst) (t u : tree),
   reach (snd (norm prefix sel st t)) u -> literal_node u = false.
@@ -132,6 +156,42 @@ Example ex_bad_int_and_in_list :
     (FCons 3 (Node T_ComparisonExpr (AOp true)
        (FCons F_ComparisonExpr_Right (Node T_ListArg (AList (bytes_of_string "::replaced2")) FNil) FNil)) FNil)).
 Proof. vm_compute. reflexivity. Qed.
+
+(** a literal in the LEFT operand of an IN whose list becomes one list bind variable is replaced as well, in a
+    DELETE (WalkStatement) and in a SELECT (WalkSelect): plain, and as a function argument below the comparison *)
+Definition ex_in_cmp (left : tree) : tree :=
+  Node T_ComparisonExpr (AOp true)
+    (FCons 0 left
+    (FCons F_ComparisonExpr_Right
+       (Node T_ValTuple ANone (FCons 0 (Node T_SQLVal (AVal VT_StrVal (bytes_of_string "a") true) FNil) FNil)) FNil)).
+Definition ex_marker : tree := Node T_SQLVal (AVal VT_StrVal (bytes_of_string "MARKER") true) FNil.
+Definition id_of_ex (name : string) : N :=
+  match find (fun t => String.eqb (t_name t) name) SCHEMA with Some t => t_id t | None => 1000000 end.
+Definition T_Delete_ex : N := id_of_ex "Delete".
+Definition T_FuncExpr_ex : N := id_of_ex "FuncExpr".
+
+Example ex_left_of_in_statement :
+  redact VALUE_MASK (Node T_Delete_ex ANone (FCons 4 (ex_in_cmp ex_marker) FNil)) =
+  Node T_Delete_ex ANone (FCons 4
+    (Node T_ComparisonExpr (AOp true)
+       (FCons 0 (Node T_SQLVal (AVal VT_ValArg (bytes_of_string ":replaced2") true) FNil)
+       (FCons F_ComparisonExpr_Right (Node T_ListArg (AList (bytes_of_string "::replaced1")) FNil) FNil))) FNil).
+Proof. vm_compute. reflexivity. Qed.
+
+Example ex_left_of_in_select :
+  redact VALUE_MASK (Node T_Select ANone (FCons 3 (ex_in_cmp (Node T_FuncExpr_ex ANone (FCons 2 ex_marker FNil))) FNil)) =
+  Node T_Select ANone (FCons 3
+    (Node T_ComparisonExpr (AOp true)
+       (FCons 0 (Node T_FuncExpr_ex ANone (FCons 2 (Node T_SQLVal (AVal VT_ValArg (bytes_of_string ":replaced2") true) FNil) FNil))
+       (FCons F_ComparisonExpr_Right (Node T_ListArg (AList (bytes_of_string "::replaced1")) FNil) FNil))) FNil).
+Proof. vm_compute. reflexivity. Qed.
+
+(** the tables are not trivial: WalkStatement hands a Select over to WalkSelect and itself returns false there *)
+Example ex_visit_tables :
+  dispatch false T_Select = (true, VISIT_SELECT_DEFAULT) /\ vc_return (clause_of false T_Select) = VR_stop /\
+  vc_action (snd (dispatch false T_ComparisonExpr)) = VA_convert_comparison /\
+  vc_action (snd (dispatch true T_SQLVal)) = VA_convert_val_dedup.
+Proof. vm_compute. repeat split; reflexivity. Qed.
 
 (** the log theorems are about real configurations: a denying firewall logs the redacted text, an
     unparsed statement with ignore_parse_error goes through the handlers with nothing to show *)
